@@ -312,6 +312,29 @@ void vf_harness(void) {
 calc_tail.thorough_variants = ['NEG', 'POS1', 'POS2', 'POS3', 'POS4']   # together: every day of years 0001..9999 (about 20 min each, run in parallel)
 UNITS += [calc_tail]
 
+# ---- toString(FULL): the millisecond field is a number 0..999 for EVERY instant (also before 1970, where the fractional part must be taken with floor, not towards zero)
+ms_field = Unit(
+    'Date_toString_ms', 'C19',
+    cuts=[Cut('ms', DC, r'case FULL:[^;]*?(int\([^;]*?\) % 1000)\);', kind='expr', rules=[(r'\b_t\b', 'vf_t', None), (r'int\(', '(int)(', 1)]),
+          Cut('fract', 'include/asl/defs.h', r'^inline T fract\(T x\) ')],
+    text=PRE + r'''
+#include <math.h>
+static double fract(double x) @@fract@@
+double nondet_double(void);
+void vf_harness(void) {
+  double vf_t = nondet_double(); __CPROVER_assume(vf_t >= -62135596800.0 && vf_t <= 253402300800.0);        /* years 0001..9999 */
+  int ms = @@ms@@;
+  __CPROVER_assert(0 <= ms && ms <= 999, "the millisecond field of the FULL format is 0..999 for every instant, before 1970 too");
+  VF_CANARY();
+}
+''',
+    entry=None, floor=1, expect=['assertion'], timeout=600,
+    desc='Date::toString(FULL): the millisecond expression yields 0..999 for every instant of years 0001..9999 (negative times included)',
+    functions=['Date::toString (FULL, millisecond field)'],
+    trusted=['CBMC floating-point model of floor()'],
+)
+UNITS += [ms_field]
+
 # replay: where the trace recipe of a unit does not reproduce (or there is none) the driver's battery runs on the real library: every day of 1582..2400 and every 97th day of
 # years 1..9999 against a linear-search calendar, weekday and h:m:s around 1970 on both sides, ISO texts with 15 zone forms on 6 time stamps
 _bat = replay.battery('C19/driver.cpp', ['battery'])
